@@ -25,6 +25,33 @@ open PgFdr.Generated (MethodToml)
 theorem shipped_methods_ok : ∀ m ∈ Generated.methods, shippedOk Generated.methods m = true := by
   decide +kernel
 
+/-- Bool form of the naming obligation, so that the kernel can evaluate it over the table -/
+def noRemapNameOk (m : MethodToml) : Bool :=
+  !has m.name "no_remap" ||
+    (match parseMethod false m with
+     | .ok cfg => !cfg.origin.remaps
+     | .error _ => true)
+
+theorem no_remap_table : ∀ m ∈ Generated.methods, noRemapNameOk m = true := by decide +kernel
+
+/-- the name of a shipped method does not lie about remapping: a method whose file name says `no_remap` reads the
+    proteins from the input file (so it runs without a FASTA file).  The code decides "remap" by the substring test
+    `"remap" in score_description`, which `no_remap` also satisfies for Percolator input (DESIGN.md §16) — a shipped
+    file spelling its Percolator score type `Perc no_remap …` would silently become a remapping method and be
+    refused without a FASTA file; this obligation is evaluated by the kernel on the current TOML files. -/
+theorem no_remap_named_methods_do_not_remap :
+    ∀ m ∈ Generated.methods, has m.name "no_remap" = true →
+      ∀ cfg, parseMethod false m = .ok cfg → cfg.origin.remaps = false := by
+  intro m hm hname cfg hcfg
+  have h := no_remap_table m hm
+  simp only [noRemapNameOk, hname, hcfg, Bool.not_true, Bool.false_or, Bool.not_eq_true'] at h
+  exact h
+
+/-- non-vacuity: some shipped method is named `no_remap`, and the obligation is not trivially true of every
+    spelling — a Percolator score type spelled `Perc no_remap bestPEP` does parse to a remapping origin -/
+example : ∃ m ∈ Generated.methods, has m.name "no_remap" = true := by decide +kernel
+example : (parseOrigin "Perc no_remap bestPEP").remaps = true := by decide +kernel
+
 /-- "For every method configuration shipped with the tool and selectable by name, running it from
     the command line on valid input of the matching type completes and writes a protein-group
     table": every shipped file parses, configures a rescue step only for a score that can rescue,
